@@ -21,6 +21,7 @@ def _setup(eng, st):
     st.env['ax'] = n
     st.env['k'] = k
     st.env['R'] = alloc(st, 2, z3.Const('R0', A2R), (n, n), REAL)
+    st.ghost['Rin'] = alloc(st, 2, z3.Const('R0', A2R), (n, n), REAL)        # the working matrix as it is on entry to the loop
     st.env['i'] = alloc(st, 1, z3.Const('i0', A1I), (k,), INT)
     st.env['j'] = alloc(st, 1, z3.Const('j0', A1I), (k,), INT)
     st.env['alpha'] = z3.Real('alpha')
@@ -62,5 +63,35 @@ CONTRACTS['randomizer_bin_und#rewire'] = Contract(
                ('NEW-connection-b-d-is-not-listed-among-the-entries-still-to-visit', "forall(lambda e: implies(And(e > it, e >= _it, e < k), Not(%s)))" % _names('e', 'b', 'd')),
                ('NEW-connection-b-d-is-listed-only-in-place-of-c-d', "forall(lambda e, f: implies(And(e > it, e < _it, f > it, f >= _it, f < k, %s), Not(%s)))" % (_names('e', 'b', 'd'), _names('f', 'c', 'd'))),
            ]}},
-    ghost_before={'for it in range(k)': "Rin = snapshot(R)"},
     ensures=[(a, b) for a, b in _state('k') if a.split('-')[0] in ('BIN', 'DIAG', 'SYM', 'DEGREE')])
+
+
+# ---- whole function, for inputs on which neither the complement branch nor the full-node branch is taken --------------------------------
+# The rewiring loop is used modularly through the fragment contract above (its entry conditions are obligations here).  The two preprocessing
+# branches (complement of a dense network, removal of fully connected nodes) and their undoing are abstracted AND ASSUMED NOT TO BE TAKEN
+# (path condition stated as an assumption): for such inputs they stay with the bounded tier.
+def _setup_whole(eng, st):
+    n = z3.Int('n')
+    st.pc.append(n >= 2)
+    st.ghost['n0'] = n
+    st.env['R'] = alloc(st, 2, z3.Const('Rarg', A2R), (n, n), REAL)
+    st.env['alpha'] = z3.Real('alpha')
+    st.env['seed'] = Opaque('seed')
+
+
+CONTRACTS['randomizer_bin_und:sparse'] = Contract(
+    MODULE, 'randomizer_bin_und', ['R', 'alpha', 'seed'], setup=_setup_whole, key='randomizer_bin_und:sparse',
+    requires=[('empty-diagonal', _N1 % "R[x, x] == 0"), ('undirected', _N2 % "R[x, y] == R[y, x]"), ('infinity-is-neither-0-nor-1', 'And(INF != 0, INF != 1)')],
+    use_fragments={'rewire': dict(contract=CONTRACTS['randomizer_bin_und#rewire'], bind={'Rin': 'Rs'}, ghost_before='Rs = snapshot(R)')},
+    abstract={'if k > nr_poss_edges / 2': {'assume_not_taken': True}, 'if np.size(fullnodes)': {'assume_not_taken': True}},
+    # lemma instances are anchored NEXT TO the statements they are about (so that an edit of such a statement is judged, not unbound)
+    ghost_before={'savediag = np.diag(R).copy()': "Rb = snapshot(R); assume(lemma_count_support(Rb, arg('R'), n0))",
+                  'i, j = np.where(*': "assume(lemma_count_diag(Rb, R, n0))",
+                  'R += savediag': "Rz = snapshot(R); assume(lemma_count_diag(Rz, Rl, n0))",
+                  'return np.array(R, dtype=int)': "assume(lemma_count_support(R, Rz, n0))"},
+    ghost_after={'if swap': "Rl = snapshot(R)"},
+    ensures=[('result-is-the-final-working-matrix-as-integers', _N2 % "result()[x, y] == R[x, y]"),
+             ('every-node-keeps-its-degree', _N1 % "And(ccnt(R, x, n0) == ccnt(arg('R'), x, n0), rcnt(R, x, n0) == rcnt(arg('R'), x, n0))"),
+             ('symmetric', _N2 % "result()[x, y] == result()[y, x]"),
+             ('no-self-connection', _N1 % "result()[x, x] == 0"),
+             ('argument-untouched', "unchanged('R')")])
